@@ -11,7 +11,7 @@ import re
 
 LEX_KEYWORDS = {"let", "into", "case", "prql", "type", "module", "internal", "func", "import", "enum"}
 LIT_WORDS = {"true", "false", "null"}
-FMT_KEYWORDS_FALLBACK = {"let", "into", "case", "prql", "type", "module", "internal", "func"}
+FMT_KEYWORDS_FALLBACK = {"let", "into", "case", "prql", "type", "module", "internal", "func", "import", "enum", "true", "false", "null"}
 I64_MAX = 2 ** 63 - 1
 
 
@@ -63,7 +63,8 @@ def display_ident_bare(p, reserved=RESERVED_FALLBACK):
 
 def write_ident_bare(p, fmt_keywords):
     """codegen/ast.rs write_ident_part prints p without backticks"""
-    return bool(re.match(r"^(?:\*|[a-zA-Z_][a-zA-Z0-9_]*)$", p)) and p not in fmt_keywords
+    # (no wildcard alternative since commit 328740d: a name spelled `*` keeps its backticks)
+    return bool(re.match(r"^[a-zA-Z_][a-zA-Z0-9_]*$", p)) and p not in fmt_keywords
 
 
 def string_quote_edge(s):
@@ -76,33 +77,20 @@ def string_quote_edge(s):
 
 def features(pl, fmt_keywords=FMT_KEYWORDS_FALLBACK):
     """input predicates: which OPEN known-defect classes the source AST contains.  (Classes of findings that were
-    repaired in /repo are deliberately absent: if such a defect comes back, nothing explains the failure.)"""
+    repaired in /repo are deliberately absent -- since HEAD 2a611aa also `ident-star-bare`, `restricted-position` and
+    `param-range`: if such a defect comes back, nothing explains the failure.)  `ident-other-bare` is not a finding:
+    it marks a name one of the printers would leave bare although it does not lex back (none exists today)."""
     fs = set()
 
     def written_part(p):
         # alias, parameter name, import alias, declared / argument / field names: write_ident_part
         if write_ident_bare(p, fmt_keywords) and not plain_lexable(p):
-            fs.add("ident-star-bare" if p == "*" else "ident-other-bare")
+            fs.add("ident-other-bare")
 
     def ident_expr_parts(parts):
         for p in parts:
             if display_ident_bare(p) and not plain_lexable(p):
                 fs.add("ident-other-bare")
-
-    def kind_of(e):
-        if isinstance(e, dict):
-            for k in ("FuncCall", "Func", "Binary", "Unary", "Range", "Pipeline", "Tuple", "Array", "Case", "Ident", "Literal", "SString", "FString", "Param", "Internal"):
-                if k in e:
-                    return k
-        return None
-
-    def aliased(e):
-        return isinstance(e, dict) and isinstance(e.get("alias"), str)
-
-    def restricted(e, allow_call):
-        k = kind_of(e)
-        if k == "Func" or (k == "FuncCall" and not allow_call) or aliased(e):
-            fs.add("restricted-position")
 
     def visit(j, path):
         if isinstance(j, list):
@@ -111,12 +99,8 @@ def features(pl, fmt_keywords=FMT_KEYWORDS_FALLBACK):
             return
         if not isinstance(j, dict):
             return
-        if aliased(j):
+        if isinstance(j.get("alias"), str):
             written_part(j["alias"])
-        if isinstance(j.get("annotations"), list):
-            for an in j["annotations"]:
-                if isinstance(an, dict):
-                    restricted(an.get("expr"), False)
         for k, v in j.items():
             if k == "Literal" and isinstance(v, dict):
                 if "Float" in v:
@@ -127,39 +111,12 @@ def features(pl, fmt_keywords=FMT_KEYWORDS_FALLBACK):
                         fs.add("float-integral")
             elif k == "Ident" and isinstance(v, list):
                 ident_expr_parts(v)
-            elif k == "Range" and isinstance(v, dict):
-                st = v.get("start")
-                if isinstance(st, dict) and isinstance(st.get("Unary"), dict):
-                    st = st["Unary"].get("expr")
-                if isinstance(st, dict) and "Param" in st:
-                    fs.add("param-range")
-                for side in ("start", "end"):
-                    if aliased(v.get(side)):
-                        fs.add("restricted-position")
-            elif k == "Binary" and isinstance(v, dict):
-                if aliased(v.get("left")) or aliased(v.get("right")):
-                    fs.add("restricted-position")
-            elif k == "Unary" and isinstance(v, dict):
-                if aliased(v.get("expr")):
-                    fs.add("restricted-position")
             elif k == "FuncCall" and isinstance(v, dict):
-                for nm, av in (v.get("named_args") or {}).items():
+                for nm in (v.get("named_args") or {}):
                     written_part(nm)
-                    if aliased(av):
-                        fs.add("restricted-position")
-                if aliased(v.get("name")):
-                    fs.add("restricted-position")
             elif k == "Func" and isinstance(v, dict):
                 for p in (v.get("params") or []) + (v.get("named_params") or []):
                     written_part(p.get("name", "a"))
-                    if p.get("default_value") is not None:
-                        restricted(p["default_value"], False)
-                restricted(v.get("body"), True)
-            elif k == "Case" and isinstance(v, list):
-                for c in v:
-                    if isinstance(c, dict):
-                        restricted(c.get("condition"), True)
-                        restricted(c.get("value"), True)
             elif k in ("VarDef", "TypeDef", "ModuleDef") and isinstance(v, dict):
                 written_part(v.get("name", "a"))
             elif k == "ImportDef" and isinstance(v, dict):
@@ -204,6 +161,25 @@ def constructs(pl):
     """presence of the constructs of the REPAIRED findings (coverage statistics only)"""
     cs = set()
 
+    def kind_of(e):
+        if isinstance(e, dict):
+            for k in ("FuncCall", "Func", "Binary", "Unary", "Range", "Pipeline", "Tuple", "Array", "Case", "Ident", "Literal", "SString", "FString", "Param", "Internal"):
+                if k in e:
+                    return k
+        return None
+
+    def aliased(e):
+        return isinstance(e, dict) and isinstance(e.get("alias"), str)
+
+    def restricted(e, allow_call, where):
+        k = kind_of(e)
+        if k == "Func":
+            cs.add("lambda-at-" + where)
+        if k == "FuncCall" and not allow_call:
+            cs.add("call-at-" + where)
+        if aliased(e):
+            cs.add("alias-at-" + where)
+
     def w(j, right=False):
         if isinstance(j, list):
             for x in j:
@@ -211,7 +187,51 @@ def constructs(pl):
             return
         if not isinstance(j, dict):
             return
+        if isinstance(j.get("annotations"), list):
+            for an in j["annotations"]:
+                if isinstance(an, dict):
+                    restricted(an.get("expr"), False, "annotation")
         for k, v in j.items():
+            # the positions repaired by commits 328740d 95d15ad 1b7b9df 4d5b01d 2a611aa
+            if k == "alias" and v == "*":
+                cs.add("star-name")
+            if k == "Range" and isinstance(v, dict):
+                st = v.get("start")
+                if isinstance(st, dict) and isinstance(st.get("Unary"), dict):
+                    st = st["Unary"].get("expr")
+                if isinstance(st, dict) and "Param" in st:
+                    cs.add("param-range-start")
+                for side in ("start", "end"):
+                    if aliased(v.get(side)):
+                        cs.add("alias-at-range-bound")
+            if k == "Binary" and isinstance(v, dict) and (aliased(v.get("left")) or aliased(v.get("right"))):
+                cs.add("alias-at-operand")
+            if k == "Unary" and isinstance(v, dict) and aliased(v.get("expr")):
+                cs.add("alias-at-operand")
+            if k == "FuncCall" and isinstance(v, dict):
+                if aliased(v.get("name")):
+                    cs.add("alias-at-callee")
+                if any(aliased(av) for av in (v.get("named_args") or {}).values()):
+                    cs.add("alias-at-named-arg")
+            if k == "Func" and isinstance(v, dict):
+                for p in (v.get("params") or []) + (v.get("named_params") or []):
+                    if p.get("name") == "*":
+                        cs.add("star-name")
+                    if p.get("default_value") is not None:
+                        restricted(p["default_value"], False, "default-value")
+                restricted(v.get("body"), True, "lambda-body")
+            if k == "Case" and isinstance(v, list):
+                for c in v:
+                    if isinstance(c, dict):
+                        restricted(c.get("condition"), True, "case-branch")
+                        restricted(c.get("value"), True, "case-branch")
+            if k in ("SString", "FString") and isinstance(v, list):
+                for it in v:
+                    ex = it.get("Expr") if isinstance(it, dict) else None
+                    if isinstance(ex, dict):
+                        txt = "".join((ex.get("expr") or {}).get("Ident") or []) + (ex.get("format") or "")
+                        if "\\" in txt or '"' in txt:
+                            cs.add("interp-escape")
             if k == "Literal" and isinstance(v, dict) and isinstance(v.get("String"), str) and string_quote_edge(v["String"]):
                 cs.add("string-quote-edge")
             if k == "Ident" and isinstance(v, list):
